@@ -167,6 +167,14 @@ def check(run):
         op = q.param_names(M)[1]
         dicts = [x for x in q.walk(M) if isinstance(x, ast.Dict) and any(q.const_str(k) == 'event' for k in x.keys if k is not None)]
         run.check(len(dicts) == 1, r, m.short, 'one exposed-context dict', 'found %d' % len(dicts), M)
+        # .. and that dict is what the conditions are evaluated with
+        ecalls = [c for c in q.calls(M) if isinstance(c.func, ast.Attribute) and c.func.attr == '_evaluate_code']
+        run.check(len(ecalls) >= 1, r, m.short, 'conditions go through _evaluate_code', 'no _evaluate_code call', M)
+        for c in ecalls:
+            ac = q.arg(c, 1, 'additional_context')
+            src_ = [strip_cast(ac)] + ([strip_cast(o) for o in q.local_origin(M, ac)] if ac is not None else [])
+            run.check(ac is not None and len(dicts) == 1 and any(x is dicts[0] for x in src_), r, m.short, 'the exposed context is handed to _evaluate_code',
+                      'the condition is evaluated without the exposed predicates (additional_context is %s)' % (q.unparse(ac) if ac is not None else 'missing'), c)
         for d in dicts:
             got = {q.const_str(k) for k in d.keys if k is not None}
             run.check(got == keys, r, m.short, 'exposes exactly %s' % sorted(keys), 'exposes %s' % sorted(got), d)
